@@ -82,8 +82,16 @@ func CreateConsensusRawMessage(message ConsensusMessage) *ConsensusRawMessage {
 	return rawMessage
 }
 
-func ToConsensusMessage(consensusMessage *ConsensusRawMessage) ConsensusMessage {
-	var message ConsensusMessage
+// ToConsensusMessage returns nil when the content is not a well-formed message
+func ToConsensusMessage(consensusMessage *ConsensusRawMessage) (message ConsensusMessage) {
+	defer func() {
+		if r := recover(); r != nil { // malformed content (the readers parse lazily and panic on bad offsets)
+			message = nil
+		}
+	}()
+	if consensusMessage == nil {
+		return nil
+	}
 	lhContentReader := protocol.LeanhelixContentReader(consensusMessage.Content)
 
 	if lhContentReader.IsMessagePreprepareMessage() {
@@ -103,7 +111,6 @@ func ToConsensusMessage(consensusMessage *ConsensusRawMessage) ConsensusMessage 
 		message = &CommitMessage{
 			content: lhContentReader.CommitMessage(),
 		}
-		return message
 	}
 
 	if lhContentReader.IsMessageViewChangeMessage() {
@@ -119,7 +126,14 @@ func ToConsensusMessage(consensusMessage *ConsensusRawMessage) ConsensusMessage 
 			block:   consensusMessage.Block,
 		}
 	}
-	return message // handle with error
+	if message != nil { // parse the fields every receiver reads, so that malformed ones are rejected here
+		message.MessageType()
+		message.InstanceId()
+		message.BlockHeight()
+		message.View()
+		message.SenderMemberId()
+	}
+	return message
 }
 
 /***************************************************/
